@@ -137,6 +137,7 @@ class Interp:
         self.fns = {}          # "mod::name" / "name" -> item
         self.methods = {}      # type -> {name: item}
         self.consts = {}
+        self.froms = {}        # type -> [(param type, item)] for `impl From<X> for T`
         self.cap = cap
         self.loop_bound = loop_bound
         self.rec_bound = rec_bound
@@ -211,7 +212,11 @@ class Interp:
                 tname = st[0]
                 for ii in it["items"]:
                     if ii["_"] == "ImplItem::Fn":
-                        self.methods.setdefault(tname, {})[ident(ii["sig"]["ident"])] = ii
+                        mname = ident(ii["sig"]["ident"])
+                        if mname == "from" and ii["sig"]["inputs"] and ii["sig"]["inputs"][0]["_"] == "FnArg::Typed":
+                            pt = ty_simple(ii["sig"]["inputs"][0]["args"][0]["ty"])
+                            self.froms.setdefault(tname, []).append((pt, ii))
+                        self.methods.setdefault(tname, {})[mname] = ii
                     elif ii["_"] == "ImplItem::Const":
                         self.consts[tname + "::" + ident(ii["ident"])] = ii["expr"]
             elif k == "Item::Const":
@@ -443,6 +448,8 @@ class Interp:
     def eq(self, a, b):
         a = self.deref(a)
         b = self.deref(b)
+        if a is None or b is None:
+            return False
         if isinstance(a, (St, En)) and "eq" in self.methods.get(a.name, {}):
             r = self.call_item(self.methods[a.name]["eq"], [a, b], a.name)
             return r
@@ -548,10 +555,12 @@ class Interp:
                             sc.vars["__self_tmp"] = a
                             a = Rf(Place(sc, "__self_tmp"))
                         sc.vars["self"] = a
+                    elif is_some(r.get("reference")):
+                        # &self: alias the receiver when it has a home (interior mutability through
+                        # RwLock/Mutex/atomics must be visible to the caller), otherwise a copy
+                        sc.vars["self"] = a
                     else:
-                        sc.vars["self"] = self.deref(a) if not is_some(r.get("mutability")) or True else a
-                        if is_some(r.get("reference")) is False and isinstance(a, Rf):
-                            sc.vars["self"] = self.deref(a)
+                        sc.vars["self"] = self.deref(a)
                 else:
                     pt = p["args"][0]
                     ty = pt["ty"]
@@ -567,6 +576,71 @@ class Interp:
             return ite(cx.returned, cx.ret, v) if v is not None else cx.ret
         finally:
             self.depth[fname] = d
+
+    def convert_into(self, v, tname):
+        """`v.into()` / `T::from(v)` with overloads chosen by the runtime kind of v"""
+        v0 = self.deref(v)
+        if isinstance(v0, (St, En)) and v0.name == tname:
+            return v0
+        cands = self.froms.get(tname, [])
+        def kind_ok(pt):
+            if pt is None:
+                return False
+            n = pt[0]
+            if isinstance(v0, S):
+                return n in ("String", "str")
+            if isinstance(v0, I):
+                return n == (v0.ty or "i64") or (v0.ty is None and n in V.INT_RANGES)
+            if isinstance(v0, F):
+                return n in ("f64", "f32")
+            if isinstance(v0, bool) or is_sym(v0):
+                return n == "bool"
+            if isinstance(v0, Vc):
+                return n == "Vec"
+            if isinstance(v0, Mp):
+                return n == "HashMap"
+            if isinstance(v0, (St, En)):
+                return n == v0.name
+            return False
+        for pt, item in cands:
+            if kind_ok(pt):
+                return self.call_item(item, [v0], tname)
+        if isinstance(v0, I):
+            for pt, item in cands:
+                if pt and pt[0] in V.INT_RANGES:
+                    return self.call_item(item, [I(v0.v, pt[0])], tname)
+        raise Unsupported("no From<%s> for %s" % (type(v0).__name__, tname))
+
+    def place_type(self, place):
+        """declared type (simple form) of a place, from struct field / local declarations"""
+        sc, var, path = place.scope, place.var, place.path
+        v = sc.vars.get(var)
+        while isinstance(v, Rf):
+            path = v.place.path + path
+            sc, var = v.place.scope, v.place.var
+            v = sc.vars.get(var)
+        t = sc.types.get(var)
+        cur = v
+        for acc in path:
+            if acc[0] == "f" and isinstance(cur, St) and cur.name in self.structs:
+                ft = dict(self.structs[cur.name][1]).get(acc[1])
+                t = ty_simple(ft) if ft is not None else None
+                cur = cur.f.get(acc[1])
+            elif acc[0] == "k" and t is not None and t[0] in ("HashMap", "BTreeMap") and len(t[1]) > 1:
+                t = t[1][1]
+                cur = None
+            elif acc[0] == "i" and t is not None and t[0] in ("Vec", "VecDeque") and t[1]:
+                t = t[1][0]
+                cur = None
+            elif acc[0] == "v" and t is not None and t[0] == "Option" and t[1]:
+                t = t[1][0]
+                cur = None
+            else:
+                t = None
+                cur = None
+            while isinstance(cur, Rf):
+                cur = self.read(cur.place)
+        return t
 
     def junk_ret(self, sig, selfty):
         """value for a call that is never executed (its guard is unsatisfiable)"""
@@ -898,6 +972,8 @@ class Interp:
 
     # ---------------------------------------------------------------- expressions
     def ev(self, e, sc, cx, hint=None):
+        if self.g is False:
+            return None        # dead code under an unsatisfiable guard is not evaluated
         k = e["_"]
         m = getattr(self, "ev_" + k.split("::")[-1], None)
         if m is None:
@@ -1080,6 +1156,8 @@ class Interp:
             if b is None:
                 return None
             idx = self.deref(self.ev(e["index"], sc, cx))
+            if isinstance(idx, St):
+                return None
             cur = self.deref(self.read(b))
             if isinstance(cur, Mp):
                 return b.ext(("k", idx))
@@ -1110,6 +1188,8 @@ class Interp:
 
     def ev_Field(self, e, sc, cx, hint):
         b = self.ev(e["base"], sc, cx)
+        if b is None:
+            return None
         name = self.member(e["member"])
         if isinstance(b, Rf):
             p = b.place.ext(("f", name))
@@ -1290,6 +1370,7 @@ class Interp:
         x = unsome(e.get("expr"))
         v = self.ev(x, sc, cx, cx.rty) if x is not None else UNIT
         self.do_return(cx, v)
+        self.g = False
         return None
 
     def do_return(self, cx, v):
@@ -1313,6 +1394,7 @@ class Interp:
             with self.under(bad):
                 if self.g is not False:
                     self.do_return(cx, none())
+            self.g = band(self.g, bnot(bad))   # the rest of the enclosing statement only runs on Some
             pl = v.pl.get(1)
             return pl[0] if pl else None
         bad = self.tag_eq(v, 1)
@@ -1320,6 +1402,7 @@ class Interp:
             if self.g is not False:
                 ev_ = v.pl.get(1)
                 self.do_return(cx, err(ev_[0] if ev_ else UNIT))
+        self.g = band(self.g, bnot(bad))
         pl = v.pl.get(0)
         return pl[0] if pl else None
 
@@ -1335,11 +1418,13 @@ class Interp:
             v = self.ev(x, sc, cx)
             l.val = v if l.val is None else ite(self.g, v, l.val)
         l.broken = bor(l.broken, self.g)
+        self.g = False
         return None
 
     def ev_Continue(self, e, sc, cx, hint):
         l = cx.loops[-1]
         l.cont = bor(l.cont, self.g)
+        self.g = False
         return None
 
     def ev_While(self, e, sc, cx, hint):
@@ -1513,11 +1598,14 @@ class Interp:
             if recv_param is not None and recv_param["_"] == "FnArg::Receiver":
                 r = recv_param["args"][0]
                 mutref = is_some(r.get("reference")) and is_some(r.get("mutability"))
+                byref = is_some(r.get("reference"))
                 if mutref:
                     if place is None:
                         tmp = "__recv%d" % id(e)
                         sc.vars[tmp] = rv
                         place = Place(sc, tmp)
+                    selfarg = Rf(place)
+                elif byref and place is not None:
                     selfarg = Rf(place)
                 else:
                     selfarg = rv
